@@ -10,6 +10,7 @@ ops (one output line each):
   body <type> <flags> <sid> <len> <hex> -> ok <remaining> <summary> | eof | err <code>
   settings_frame <flags> <hex>          -> ok <remaining> <summary> | eof | err <code>
   fframe <0 normal|1 closed stream|2 in header block> <hex frame> -> the flood events of that received frame (as `f`)
+  cnew <max streams> / cframe <sid> <kind> <end_stream 0|1> -> the connection-history model (connStep)
   stream <state> <frame kind>           -> handled | serr <code> | cerr <code>  (handle_header_state's table)
   first_settings <hex>                  -> the first SETTINGS payload of a connection, as h2.rs parses it
   gen_header <cap> <len> <type> <flags> <sid>
@@ -88,6 +89,7 @@ def parseFloodOp (ws : List String) : Option FloodOp :=
 structure St where
   flood : Flood
   dead : Bool
+  conn : Conn := Conn.init 100
 
 def St.init : St := { flood := Flood.new FloodCfg.default, dead := false }
 
@@ -121,6 +123,25 @@ def stepLine (st : St) (line : String) : St × List String :=
       | .incomplete => (st, ["incomplete"])
       | .err c => (st, [s!"err {c}"])
     | _, _ => (st, ["bad-op"])
+  | ["cnew", m] =>
+    match m.toNat? with
+    | some m => ({ st with conn := Conn.init m }, ["cnew"])
+    | none => (st, ["bad-op"])
+  | ["cframe", sid, fk, es] =>
+    let fk? : Option FrameKind := match fk with
+      | "data" => some .data | "headers" => some .headers | "window_update" => some .windowUpdate
+      | "rst_stream" => some .rstStream | "priority" => some .priority | "continuation" => some .continuation
+      | _ => none
+    match sid.toNat?, fk?, es with
+    | some sid, some fk, "0" | some sid, some fk, "1" =>
+      let r := connStep st.conn (.frame sid fk (es == "1"))
+      let o := match r.2 with
+        | none => "none"
+        | some .handled => "handled"
+        | some (.streamError c) => s!"serr {c}"
+        | some (.connError c) => s!"cerr {c}"
+      ({ st with conn := r.1 }, [o])
+    | _, _, _ => (st, ["bad-op"])
   | ["stream", sst, fk] =>
     let st? : Option StreamSt := match sst with
       | "idle_above" => some .idleAbove | "closed_below" => some .closedBelow
